@@ -43,10 +43,23 @@ def gen_cases(tier):
         for lvl in ('L', 'M', 'Q', 'H'):
             for lo in range(1, 261, 20):
                 yield ('alt', ver, lvl, lo, lo + 19)
+    for ver in ('M3', 'M4', 1, 2, None):
+        for lvl in ('L', 'M', 'Q', 'H', None):
+            if ver is not None and lvl is not None and lvl not in T.levels_of(ver):
+                continue
+            yield ('alt', ver, lvl, 1, 45)
     # (e) ECI overhead (byte parts in UTF-8 with eci=True) around boundaries of small versions
     for v in (1, 2, 3, 9, 10):
         for lvl in ('L', 'H'):
             yield ('eci', v, lvl)
+        yield ('ecilevels', v)
+    # (f) adjacent parts of the same mode (which the encoder may merge into one segment) sized around every small capacity
+    for v in T.MICRO + (1, 2, 3, 9, 10):
+        for lvl in T.levels_of(v):
+            yield ('merge', v, lvl)
+    # (g) cross-talk: one process, one fixed order and its reverse (exposes state shared between calls, e.g. incompletely keyed caches)
+    yield ('crosstalk', 0)
+    yield ('crosstalk', 1)
 
 
 def model_parts(mode, n, nonlatin=False):
@@ -235,6 +248,26 @@ def run_case(case, acc, want='both'):
             for enc, nonlatin in (('iso-8859-1', False), ('utf-8', True), ('iso-8859-1', False), ('utf-8', True)):
                 kw = {'mask': 0, 'error': lvl, 'eci': True, 'encoding': enc, 'mode': 'byte'}
                 evaluate(acc, ('oneenc', n, kw), 'a' * n, [('byte', n, nonlatin)], kw, decode=True, exp_bytes=b'a' * n, want=want)
+    elif kind == 'ecilevels':
+        _, v = case
+        for target in ('L', 'M', 'Q', 'H'):
+            nmax = C.max_count('byte', v, target, extra_bits=12)
+            for n in range(max(1, nmax - 1), nmax + 2):
+                for req_lvl in ('L', target, None):
+                    for req in (None, v):
+                        kw = {'mask': 0, 'eci': True, 'encoding': 'utf-8', 'mode': 'byte'}
+                        if req_lvl is not None:
+                            kw['error'] = req_lvl
+                        if req is not None:
+                            kw['version'] = req
+                        evaluate(acc, ('one8', n, kw), 'a' * n, [('byte', n, True)], kw, decode=True, exp_bytes=b'a' * n, want=want)
+    elif kind == 'merge':
+        _, v, lvl = case
+        merge_family(v, lvl, acc, want)
+    elif kind == 'merge1':
+        merge_one(case[1], case[2], case[3], case[4], case[5], acc, want)
+    elif kind == 'crosstalk':
+        crosstalk(case[1], acc, want)
     elif kind == 'oneenc':
         _, n, kw = case
         nonlatin = kw.get('encoding') != 'iso-8859-1'
@@ -274,12 +307,88 @@ def multi_eci(v, lvl, encs, n, req, acc, want):
             acc.violation('eci/' + fam, msg, ('multieci', v, lvl, list(encs), n, req))
 
 
+def merge_family(v, lvl, acc, want):
+    for mode in ('numeric', 'alphanumeric', 'byte'):
+        if not T.mode_supported(mode, v):
+            continue
+        nmax = C.max_count(mode, v, lvl)
+        unit = {'numeric': 3, 'alphanumeric': 2, 'byte': 1}[mode]
+        for total in range(max(2 * unit, nmax - 2), nmax + 3):
+            for first in (unit, 2 * unit, total // 2 // unit * unit):
+                if 0 < first < total:
+                    merge_one(v, lvl, mode, first, total - first, acc, want)
+
+
+def merge_one(v, lvl, mode, k1, k2, acc, want):
+    """two adjacent parts of the same mode (k1 a whole number of groups, so the encoder may merge them)"""
+    if want == 'c05':
+        return
+    case = ('merge1', v, lvl, mode, k1, k2)
+    c = C.content_of(mode, k1 + k2, 0)
+    content = [c[:k1], c[k1:]]
+    exp = c.encode('latin-1')
+    lo = Sel.select([(mode, k1 + k2, False)], error=lvl, boost=False)                      # merged into one segment
+    hi = Sel.select([(mode, k1, False), (mode, k2, False)], error=lvl, boost=False)        # two segments
+    for req in (None, v):
+        kw = {'mask': 0}
+        if lvl is not None:
+            kw['error'] = lvl
+        if req is not None:
+            kw['version'] = req
+        qr, exc = call(content, kw)
+        acc.eval(case + (req,), nontrivial=qr is not None, outcome=qr.designator if qr else 'refused', state=('merge', mode, k1, k2, lvl, req))
+        if qr is None:
+            if not isinstance(exc, ValueError):
+                acc.violation('exception/' + C.exc_name(exc), 'make(%r) raised %s' % (content, C.exc_name(exc)), case)
+            elif req is None and hi[0] == 'ok':
+                acc.violation('refused-fitting', 'two %s parts of %d+%d characters fit %s-%s but were refused' % (mode, k1, k2, hi[1], hi[2]), case)
+            continue
+        rep = C.read(qr)
+        bad = [p for p in rep.problems if C.classify_problem(p) != 'remainder-bits']
+        if bad or rep.payload != exp:
+            acc.violation('silent-cut/merged-parts', 'make(%r, **%r) -> %s does not decode to the content (%s)'
+                          % ([x[:12] for x in content], kw, qr.designator, bad[:1] or 'payload %d of %d bytes' % (len(rep.payload), len(exp))), case)
+        if req is None and lo[0] == 'ok' and T.ORDER.index(qr.version) < T.ORDER.index(lo[1]):
+            acc.violation('version/too-small', 'version %r returned, even one merged segment needs %r' % (qr.version, lo[1]), case)
+        if req is None and hi[0] == 'ok' and T.ORDER.index(qr.version) > T.ORDER.index(hi[1]):
+            acc.violation('version/not-smallest', 'version %r returned, two separate segments already fit %r' % (qr.version, hi[1]), case)
+
+
+def crosstalk(direction, acc, want):
+    """All small configurations in ONE process in a fixed order (and, as a second case, in the reverse order): whichever of two
+    configurations that share state runs second is judged against the model."""
+    configs = []
+    for mode in MODES:
+        for n in range(0, 121):
+            for lvl in LEVELS:
+                for micro in (None, True):
+                    configs.append((mode, n, lvl, micro))
+    if direction:
+        configs.reverse()
+    else:
+        # interleave the modes so that equal bit lengths of different modes meet
+        configs.sort(key=lambda c: (c[1], MODES.index(c[0]), str(c[2]), str(c[3])))
+    for mode, n, lvl, micro in configs:
+        content, parts, eb = content_for(mode, n)
+        kw = base_kw(mode)
+        if lvl is not None:
+            kw['error'] = lvl
+        if micro is not None:
+            kw['micro'] = micro
+        evaluate(acc, ('one', mode, n, kw), content, parts, kw, decode=False, want=want)
+
+
 def alt(ver, lvl, k, acc, want):
     """k alternating one-character numeric / alphanumeric parts, requested version at a count-indicator range edge"""
     content = ['1' if i % 2 == 0 else 'A' for i in range(k)]
     parts = [('numeric' if i % 2 == 0 else 'alphanumeric', 1, False) for i in range(k)]
     for boost in (True, False):
-        kw = {'version': ver, 'error': lvl, 'mask': 0}
+        kw = {'mask': 0}
+        if ver is not None:
+            kw['version'] = ver
+        if lvl is not None:
+            kw['error'] = lvl
+        kw0 = {'version': ver, 'error': lvl, 'mask': 0}
         if not boost:
             kw['boost_error'] = False
         evaluate(acc, ('alt1', ver, lvl, k), content, parts, kw, single=(k == 1), decode=True,
